@@ -289,25 +289,8 @@ theorem compactHeadOnce_preserves {d : Db} {r : Ref} (hG : Good d r) (happ : d.a
   · intro a ha
     simp only [happ] at ha
     exact absurd ha (by simp)
-  · -- LastVis
-    intro s' hs' l hl
-    obtain ⟨s, hs, hne, rfl⟩ := mem_cSeries.1 (show s' ∈ cSeries d from hs')
-    simp only at hl ⊢
-    have hlm := getLast?_mem hl
-    simp only [List.mem_filter, decide_eq_true_eq] at hlm
-    rw [visible_filter_tombs hlm.2]
-    cases hlo : s.phys.getLast? with
-    | none => have : s.phys = [] := by simpa using hlo
-              rw [this] at hlm; simp at hlm
-    | some lo =>
-      have h5 := (hI.physInc s hs).le_getLast hlo l hlm.1
-      have hlom : lo ∈ s.phys.filter fun x => x.t ≥ cMaxt d := by
-        simp only [List.mem_filter, decide_eq_true_eq]
-        exact ⟨getLast?_mem hlo, by omega⟩
-      have h6 := ((hI.physInc s hs).filter _).le_getLast hl lo hlom
-      have : l = lo := (hI.physInc s hs).t_inj hlm.1 (getLast?_mem hlo) (by omega)
-      rw [this]
-      exact hG.lastVis s hs lo hlo
+  · -- LastOk (no appender is open)
+    exact LastOk.of_no_pending (by simp only [pendingOf, happ])
   · -- membership
     intro i x
     rw [← hS.mem i x]
